@@ -205,13 +205,17 @@ func condFieldName(v ssa.Value) string {
 		case *ssa.UnOp:
 			v = x.X
 		case *ssa.BinOp:
-			if core.IsNilConst(x.Y) {
+			if _, isC := x.Y.(*ssa.Const); isC {
 				v = x.X
-			} else if core.IsNilConst(x.X) {
+			} else if _, isC := x.X.(*ssa.Const); isC {
 				v = x.Y
 			} else {
 				return ""
 			}
+		case *ssa.Convert:
+			v = x.X
+		case *ssa.ChangeType:
+			v = x.X
 		case *ssa.FieldAddr:
 			if st, ok := core.Deref(x.X.Type()).Underlying().(*types.Struct); ok {
 				return st.Field(x.Field).Name()
